@@ -83,4 +83,15 @@ pub fn serialise(docs: &[Vec<Node>], rng: &mut Rng) -> Vec<Vec<u8>> {
         .collect()
 }
 
+/// like `serialise`, but text nodes are never blank and never start or end with white space
+pub fn serialise_no_blank(docs: &[Vec<Node>], rng: &mut Rng) -> Vec<Vec<u8>> {
+    docs.iter()
+        .map(|d| {
+            let mut st = Style::new(rng.fork());
+            st.no_blank_text = true;
+            write_doc(d, &mut st).into_bytes()
+        })
+        .collect()
+}
+
 pub const DOC_IMPORTS: &str = "From XSG.Model Require Import Strings Necessity Element Parser Dom Spec Render.\nFrom XSG.Corr Require Import Common Oracles CoreCorr.\nFrom Coq Require Import String Uint63.";
